@@ -231,3 +231,19 @@ impl Matcher {
         }
     }
 }
+
+// Verification hook (additive; compiled only with `--cfg llg_verif`).
+#[cfg(llg_verif)]
+impl Matcher {
+    /// Canonical key of the committed engine state; `None` in the error state.
+    pub fn verif_state_key(&self) -> Option<Vec<u64>> {
+        match &self.0 {
+            MatcherState::Normal(inner) => {
+                let mut out = Vec::new();
+                inner.parser.verif_state_key(&mut out);
+                Some(out)
+            }
+            MatcherState::Error(_) => None,
+        }
+    }
+}
